@@ -3,7 +3,8 @@ from ..ir import AnalysisBroken, strip_targs, qmatch
 from ..graph import Graph
 from ..expr import access_path, path_str, held_locks, reaching_defs, norm_cond, origins, leaves, defs_in_node
 from ..charclass import describe, CTYPE
-from .common import strip_casts, short, comparison, member_funcs, subtree_through_locals, gated_by
+from .common import strip_casts, short, comparison, member_funcs, subtree_through_locals, gated_by, loops_over, loop_visits_every_element
+from ..symb import feasible_reach, feasible_armed_reach
 from . import c06
 
 UNITS = ['sdk/src/metrics/instrument_metadata_validator.cc', 'sdk/src/metrics/meter.cc', 'sdk/src/trace/tracer.cc',
@@ -219,6 +220,19 @@ def _match_table(ck, prog, rule, fname, site, spec, spec_text, role_fix=None):
                '%s is not %s: %s' % (fname.rsplit('::', 1)[-1], spec_text, wrong[1]))
 
 
+def _view_hosts(prog, lf):
+    """the per-view callback and the file-local / Meter helpers it hands its view parameter to: [(func, id of the view param)]"""
+    out = [(lf, lf.params[0]['id'])] if lf.params else []
+    for n in lf.nodes:
+        h = prog.funcs.get(n.get('ck')) if n['k'] == 'call' else None
+        if h is None or not h.blocks or not (h.d.get('local') or (h.cls or '').endswith('sdk::metrics::Meter')):
+            continue
+        for pi, a in enumerate(n.get('args', [])):
+            if a is not None and a >= 0 and pi < len(h.params) and out and strip_casts(lf, a).get('id') == out[0][1]:
+                out.append((h, h.params[pi]['id']))
+    return out
+
+
 def rule_r3(ck, prog, rule='C19.R3'):
     def meter_spec(a):
         need = {'name:match', 'version:empty', 'version:match', 'schema:empty', 'schema:match'}
@@ -240,26 +254,33 @@ def rule_r3(ck, prog, rule='C19.R3'):
                  'name and unit and type, each against its own descriptor field')
     f = prog.function('sdk::metrics::ViewRegistry::FindViews')
     g = Graph(prog, f, inline=None, sync_lambdas=False)
-    loops = [n for n in f.nodes if n['k'] == 'forrange' and access_path(f, n['range']) == ('this', 'registered_views_')]
-    ok = len(loops) == 1
-    if ok:
-        body = [f.nodes[i] for i in f.subtree(loops[0]['body'])]
-        brk = [n for n in body if n['k'] in ('break', 'continue')]
-        rets_in = [n for n in body if n['k'] == 'return']
-        ok = not brk and all(strip_casts(f, r['e']).get('v') == 0 for r in rets_in)
-    ck.verdict(ok, rule, f, 'findviews-visits-all', loops[0] if loops else None, 'every registered view is tested; the only early exit is a refusing callback' if ok else
-               'FindViews can stop before all registered views were tested (only the first matching view shapes a stream)')
+    loops = loops_over(f, lambda ap: ap == ('this', 'registered_views_'))
     cbs = [p for p in g.points if p.n is not None and p.n['k'] == 'call' and (p.n.get('fx') is not None or p.n.get('obj') is not None) and
            strip_casts(f, p.n.get('obj', p.n.get('fx')) if p.n.get('obj') is not None else p.n['fx']).get('id') == f.params[2]['id']]
     defaults = [p for p in cbs if any(f.nodes[i]['k'] == 'ref' and f.nodes[i].get('sk') == 'static_local' for a in p.n.get('args', []) for i in f.subtree(a))]
+    registered = [p for p in cbs if p not in defaults]
+    tests = [p for p in g.points if p.n is not None and p.n['k'] == 'call' and strip_targs(p.n.get('c', '')).endswith('ViewRegistry::MatchMeter')]
 
-    def none_found(a, b, lab):
+    def refused(a, b, lab):
+        # the callback said "stop": the only legitimate early exit
         if not lab or not isinstance(lab[0], int):
             return False
         core, pol = norm_cond(lab[1], lab[0])
-        cn = lab[1].nodes[core]
-        return cn['k'] == 'ref' and cn['name'] == 'found' and (lab[2] if pol else not lab[2]) is False
-    ok = len(defaults) == 1 and g.must_pass_edge(defaults[0], none_found)
+        return any(lab[1].nodes[core] is p.n for p in cbs) and (lab[2] if pol else not lab[2]) is False
+    ok = len(loops) == 1 and bool(tests)
+    why = None
+    if ok:
+        why = loop_visits_every_element(g, f, loops[0], tests, allowed_exit=refused)
+        ok = why is None
+    ck.verdict(ok, rule, f, 'findviews-visits-all', loops[0] if loops else None, 'every registered view is tested; the only early exit is a refusing callback' if ok else
+               'FindViews can stop before all registered views were tested (only the first matching view shapes a stream)%s' % (': ' + why if why else ''))
+    # the default view is used exactly when no registered view matched: once a registered view's callback has run no feasible path
+    # reaches the default callback (boolean locals tracked), and with every match test pinned to false it is reached
+    ok = len(defaults) == 1 and bool(registered)
+    if ok:
+        after = feasible_armed_reach(g, registered, [], defaults)
+        none = feasible_reach(g, [g.entry], defaults, pins={p.n['i']: False for p in tests})
+        ok = after is None and none is not None
     ck.verdict(ok, rule, f, 'default-view-only-when-none-matched', defaults[0].n if defaults else None, 'default view only behind "no view matched"' if ok else
                'the default view is used although a registered view matched (or never)')
     # per-view callback shapes the storage from the view
@@ -269,7 +290,8 @@ def rule_r3(ck, prog, rule='C19.R3'):
         ok = bool(lams)
         if ok:
             lf = lams[0]
-            got = {strip_targs(n.get('c', '')).rsplit('::', 1)[-1] for n in lf.nodes if n['k'] == 'call' and n.get('obj') is not None and strip_casts(lf, n['obj']).get('id') == lf.params[0]['id']}
+            got = {strip_targs(n.get('c', '')).rsplit('::', 1)[-1] for (hf, vid) in _view_hosts(prog, lf) for n in hf.nodes
+                   if n['k'] == 'call' and n.get('obj') is not None and strip_casts(hf, n['obj']).get('id') == vid}
             need = {'GetName', 'GetDescription', 'GetAggregationType', 'GetAggregationConfig'} | ({'GetAttributesProcessor'} if 'Sync' in name else set())
             ok = need <= got
             ck.verdict(ok, rule, lf, 'view-shapes-storage:%s' % name, None, 'storage built from the view\'s %s' % ', '.join(sorted(need)) if ok else
@@ -299,6 +321,49 @@ def rule_r4(ck, prog, rule='C19.R4', cls='sdk::instrumentationscope::ScopeConfig
         default_after = len(after) == 1 and any(lf.nodes[i]['k'] in ('member', 'ref') and 'default' in lf.nodes[i]['name'] for i in lf.subtree(after[0].n['e']))
         fwd = lp['range'] is not None and not any(lf.nodes[i]['k'] == 'call' and strip_targs(lf.nodes[i].get('c', '')).rsplit('::', 1)[-1] in ('rbegin', 'rend') for i in lf.subtree(lp['range']))
         ok = first_match and default_after and fwd
+    if not ok:
+        # the same search written with std::find_if over [begin, end) in insertion order: the hit's config when found, else the default
+        for lf in lams:
+            fi = [n for n in lf.nodes if n['k'] == 'call' and strip_targs(n.get('c', '')) == 'std::find_if' and len(n.get('args', [])) >= 3]
+            if len(fi) != 1:
+                continue
+            ends = [strip_targs(lf.nodes[k].get('c', '')).rsplit('::', 1)[-1] for a in fi[0]['args'][:2] for k in lf.subtree(a) if lf.nodes[k]['k'] == 'call']
+            preds = [prog.funcs[lf.nodes[k]['fn']] for k in subtree_through_locals(lf, fi[0]['args'][2]) if lf.nodes[k]['k'] == 'lambda' and lf.nodes[k].get('fn') in prog.funcs]
+            pred_ok = bool(preds) and any(m['k'] == 'member' and m['name'] == 'scope_matcher' for m in preds[0].nodes)
+            g = Graph(prog, lf, inline=None, sync_lambdas=False)
+            rd = reaching_defs(g)
+
+            def found_pins(found):
+                pins = {}
+                for n in lf.nodes:
+                    c = comparison(lf, n['i'])
+                    if c and c[0] in ('==', '!=') and any(any(sn is fi[0] for (sf, sn, sc) in origins(g, rd, lf, side, g.root_ctx)) for side in (c[1], c[2])):
+                        pins[n['i']] = found if c[0] == '!=' else (not found)
+                return pins
+
+            def ret_kinds(found):
+                from ..symb import explore_pinned, eval3
+                pins = found_pins(found)
+                if not pins:
+                    return {'?'}
+                out = set()
+                for (ri, _v, env) in explore_pinned(g, pins)[0]:
+                    if ri is None:
+                        out.add('?')
+                        continue
+                    e = strip_casts(lf, lf.nodes[ri]['e'])
+                    for _ in range(3):
+                        if e['k'] == 'construct' and len(e.get('args', [])) == 1:
+                            e = strip_casts(lf, e['args'][0])
+                    if e['k'] == 'cond':
+                        t = eval3(lf, e['cnd'], dict(env), pins)
+                        e = strip_casts(lf, e['a'] if t is True else e['b']) if t is not None else e
+                    names = {lf.nodes[k].get('name') for k in lf.subtree(e['i']) if lf.nodes[k]['k'] in ('member', 'ref')}
+                    out.add('config' if 'scope_config' in names and not any('default' in (x or '') for x in names) else
+                            ('default' if any('default' in (x or '') for x in names) and 'scope_config' not in names else '?'))
+                return out
+            if ends[:2] == ['begin', 'end'] and pred_ok and ret_kinds(True) == {'config'} and ret_kinds(False) == {'default'}:
+                ok = True
     ck.verdict(ok, rule, f, 'first-match-wins', None, 'conditions in insertion order, first match returns, default after the loop' if ok else
                'ScopeConfigurator::Builder::Build does not return the config of the first matching condition in insertion order with the default after the loop')
     # closures stored by the builder capture no borrowing type
@@ -331,7 +396,7 @@ def rule_r5(ck, prog, rule='C19.R5'):
                                  ('sdk::metrics::MeterProvider::GetMeter', 'GetMeters', 'Meter::Meter'),
                                  ('sdk::logs::LoggerProvider::GetLogger', 'loggers_', 'Logger::Logger')):
         f = prog.function(fname)
-        g = Graph(prog, f, inline=None, sync_lambdas=False)
+        g = Graph(prog, f, inline=None, sync_lambdas=True)     # (the lookup may be a std::find_if predicate)
         held = held_locks(g)
         news = [p for p in g.points if p.n is not None and p.n['k'] == 'construct' and strip_targs(p.n.get('c', '')).endswith(creates)]
         eqs = [p for p in g.points if p.n is not None and p.n['k'] == 'call' and strip_targs(p.n.get('c', '')).endswith('InstrumentationScope::equal')]
@@ -350,12 +415,13 @@ def rule_r5(ck, prog, rule='C19.R5'):
         keyok = True
         why = ''
         for e in eqs:
-            pm = f.parent_map()
+            ef = e.f
+            pm = ef.parent_map()
             x = e.n['i']
-            while x in pm and f.nodes[pm[x]]['k'] in ('binop', 'cast') :
+            while x in pm and ef.nodes[pm[x]]['k'] in ('binop', 'cast') :
                 x = pm[x]
-            for i in f.subtree(x):
-                m = f.nodes[i]
+            for i in ef.subtree(x):
+                m = ef.nodes[i]
                 if m['k'] == 'call' and strip_targs(m.get('c', '')).endswith('Logger::GetName'):
                     keyok = False
                     why = 'Logger::GetName(), which returns the no-op logger\'s name for a disabled scope'
@@ -498,7 +564,8 @@ def rule_r3_descriptor_copy(ck, prog, rule='C19.R3'):
     cnt = 0
     for name in ('RegisterSyncMetricStorage', 'RegisterAsyncMetricStorage'):
         for host in prog.functions('sdk::metrics::Meter::' + name):
-            for lf in [x for x in prog.funcs.values() if x.d.get('lambda') and x.d.get('parent') == host.key]:
+            for lf0 in [x for x in prog.funcs.values() if x.d.get('lambda') and x.d.get('parent') == host.key]:
+              for (lf, _vid) in _view_hosts(prog, lf0):
                 writes = []
                 for n in lf.nodes:
                     lhs = n['lhs'] if (n['k'] == 'binop' and n['op'] == '=') else (n.get('obj') if (n['k'] == 'call' and n.get('op') == '=') else None)
